@@ -309,7 +309,7 @@ def check_bools(imports, terms, preamble="", shard=400, timeout=600, tag="cases"
             f.write(_HEADER)
             for imp in imports:
                 f.write("From Verif Require Import %s.\n" % imp)
-            f.write("Local Open Scope N_scope.\nLocal Open Scope string_scope.\nLocal Open Scope list_scope.\n")
+            f.write("Local Open Scope string_scope.\nLocal Open Scope bool_scope.\nLocal Open Scope N_scope.\nLocal Open Scope list_scope.\n")
             f.write(preamble + "\n")
             f.write(_FAILING)
             for i, t in enumerate(part):
@@ -348,7 +348,7 @@ def eval_raw(imports, term, preamble="", timeout=300, tag="eval"):
         f.write(_HEADER)
         for imp in imports:
             f.write("From Verif Require Import %s.\n" % imp)
-        f.write("Local Open Scope N_scope.\nLocal Open Scope string_scope.\nLocal Open Scope list_scope.\n")
+        f.write("Local Open Scope string_scope.\nLocal Open Scope bool_scope.\nLocal Open Scope N_scope.\nLocal Open Scope list_scope.\n")
         f.write(preamble + "\n")
         f.write("Eval vm_compute in (%s).\n" % term)
     rc, out = _coqc(path, timeout)
